@@ -211,6 +211,73 @@ func (w *c05World) start(kind string) {
 	w.sess.Add(kind, "ok")
 }
 
+// c05Constructors: maps built by MapFromItems from item lists with repeated keys are the maps the same Sets
+// would build (start states other than NewMap / the zero value); every observer against the list of pairs.
+func c05Constructors(c *ctx, rng *core.Rand) {
+	n := 400
+	if c.thorough() {
+		n = 6000
+	}
+	for i := 0; i < n; i++ {
+		alphabet := 2 + rng.Intn(12)
+		var items []ordered.TupleSA
+		var ref pairs
+		for j := rng.Intn(20); j > 0; j-- {
+			k := fmt.Sprintf("k%d", rng.Intn(alphabet))
+			items = append(items, ordered.TupleSA{Key: k, Value: j})
+			found := false
+			for x := range ref {
+				if ref[x].K == k {
+					ref[x].V = j
+					found = true
+				}
+			}
+			if !found {
+				ref = append(ref, vl.KV{K: k, V: j})
+			}
+		}
+		var m *ordered.MapSA
+		if pn, msg := guard(func() { m = ordered.MapFromItems(items...) }); pn {
+			c.res.Fail(core.OracleFailure{What: "MapFromItems panicked: " + msg, Input: fmt.Sprint(items)})
+			continue
+		}
+		c.res.OracleChecks++
+		fail := func(what, got, want string) {
+			c.res.Fail(core.OracleFailure{What: "MapFromItems with repeated keys: " + what, Input: fmt.Sprint(items), Got: got, Want: want})
+		}
+		var rng2 pairs
+		m.Range(func(k string, v any) error { rng2 = append(rng2, vl.KV{K: k, V: v}); return nil })
+		if !pairsEqual(rng2, ref) {
+			fail("Range differs from the list of pairs", fmt.Sprint(rng2), fmt.Sprint(ref))
+		}
+		if m.Len() != len(ref) {
+			fail("Len", fmt.Sprint(m.Len()), fmt.Sprint(len(ref)))
+		}
+		for _, kv := range ref {
+			if v, ok := m.Get(kv.K); !ok || !reflect.DeepEqual(v, kv.V) {
+				fail("Get "+kv.K, fmt.Sprint(v, ok), fmt.Sprint(kv.V))
+			}
+		}
+		built := ordered.NewMap[string, any](0)
+		for _, kv := range ref {
+			built.Set(kv.K, kv.V)
+		}
+		if !ordered.EqualSA(m, built) || !ordered.EqualSA(built, m) {
+			fail("Equal against the map the same Sets build", "false", "true")
+		}
+		if jb, err := json.Marshal(m); err != nil {
+			fail("MarshalJSON error", err.Error(), "")
+		} else {
+			var back ordered.MapSA
+			if err := json.Unmarshal(jb, &back); err != nil || !ordered.EqualSA(&back, built) {
+				fail("JSON encode then decode", string(jb), fmt.Sprint(ref))
+			}
+		}
+		c.res.Case("items:"+fmt.Sprint(items), len(items) > 1)
+		c.res.Hist("constructor.MapFromItems")
+	}
+}
+
 func freshMap(kind string) *ordered.MapSA {
 	switch kind {
 	case "new":
@@ -798,6 +865,7 @@ func runC05(c *ctx) error {
 		nRandom, randLen = 64, 10000
 	}
 	sessions = append(sessions, c05Nil(c))
+	c05Constructors(c, c.rng.Fork())
 	for _, first := range exhaustiveOps(1) {
 		sessions = append(sessions, c05Exhaustive(c, "new", depthNew, first))
 		sessions = append(sessions, c05Exhaustive(c, "zero", depthZero, first))
